@@ -744,6 +744,9 @@ theorem norm_mul_cos_sin_arg (x y : ℝ) :
     rw [Complex.cos_arg hne, norm_mk]
     constructor <;> field_simp
 
+theorem mk_real_mul (k c s : ℝ) : (⟨k * c, k * s⟩ : ℂ) = (k : ℂ) * ⟨c, s⟩ := by
+  apply Complex.ext <;> simp
+
 /-- **relocating onto the event's own true direction returns the reconstructed direction**
 (astropy position angle + separation + offset): pins the position angle, not only the separation.
 Needs the true direction outside astropy's polar cap and a canonical reconstructed declination. -/
@@ -787,21 +790,20 @@ theorem relocate_self {eps : ℝ} (tRa tDec rRa rDec : ℝ) (ht : eps ≤ cos tD
     rw [hcb]; rfl
   have hlon : (relocate eps tRa tDec tRa tDec rRa rDec).1
       = modF (tRa + Complex.arg ⟨cos tDec * cos rDec * cos Δ, cos tDec * cos rDec * sin Δ⟩) twoPi := by
-    have hbranch : ¬ (Transc.cos tDec : ℝ) < eps := by simpa using not_lt.mpr ht
+    have hbranch : ¬ cos tDec < eps := not_lt.mpr ht
     have hcb' : sin tDec * cos (vincenty tRa tDec rRa rDec)
         + cos tDec * sin (vincenty tRa tDec rRa rDec) * cos (posAngle tRa tDec rRa rDec) = sin rDec := by
       have := hcb
       simpa only [offsetCosB, TranscReal.sin_def, TranscReal.cos_def] using this
-    simp only [relocate, offsetBy, if_neg hbranch, atan2_def, TranscReal.sin_def, TranscReal.cos_def]
-    congr 3
-    refine Complex.ext ?_ ?_
-    · show cos (vincenty tRa tDec rRa rDec) - (sin tDec * cos (vincenty tRa tDec rRa rDec)
+    have hE1 : cos (vincenty tRa tDec rRa rDec) - (sin tDec * cos (vincenty tRa tDec rRa rDec)
           + cos tDec * sin (vincenty tRa tDec rRa rDec) * cos (posAngle tRa tDec rRa rDec)) * sin tDec
-          = cos tDec * cos rDec * cos Δ
+          = cos tDec * cos rDec * cos Δ := by
       rw [hcb', hcosV]; ring
-    · show sin (vincenty tRa tDec rRa rDec) * sin (posAngle tRa tDec rRa rDec) * cos tDec
-          = cos tDec * cos rDec * sin Δ
+    have hE2 : sin (vincenty tRa tDec rRa rDec) * sin (posAngle tRa tDec rRa rDec) * cos tDec
+          = cos tDec * cos rDec * sin Δ := by
       rw [hsinV, hPA.2, hsB]; simp only [py]; ring
+    simp only [relocate, offsetBy, TranscReal.sin_def, TranscReal.cos_def, if_neg hbranch, atan2_def]
+    rw [hE1, hE2]
   rw [hlat, hlon]
   simp only [unitVec, TranscReal.sin_def, TranscReal.cos_def, cos_modF_twoPi, sin_modF_twoPi,
     sin_arcsin hsr.1 hsr.2, hcosasin]
@@ -810,8 +812,7 @@ theorem relocate_self {eps : ℝ} (tRa tDec rRa rDec : ℝ) (ht : eps ≤ cos tD
     apply V3.ext' <;> simp [hc0]
   · have hk : 0 < cos tDec * cos rDec := mul_pos hS hpos
     have hz : (⟨cos tDec * cos rDec * cos Δ, cos tDec * cos rDec * sin Δ⟩ : ℂ)
-        = ((cos tDec * cos rDec : ℝ) : ℂ) * ⟨cos Δ, sin Δ⟩ := by
-      apply Complex.ext <;> simp
+        = ((cos tDec * cos rDec : ℝ) : ℂ) * ⟨cos Δ, sin Δ⟩ := mk_real_mul _ _ _
     have hne : (⟨cos Δ, sin Δ⟩ : ℂ) ≠ 0 := by
       intro hc
       have e1 : cos Δ = 0 := by simpa using congrArg Complex.re hc
@@ -830,5 +831,39 @@ theorem relocate_self {eps : ℝ} (tRa tDec rRa rDec : ℝ) (ht : eps ≤ cos tD
     · show sin (tRa + _) * cos rDec = sin rRa * cos rDec
       rw [sin_add, hcA, hsA, hra, sin_add]
     · rfl
+
+/-! ### lists built by `filterMap` over an index range (the call-level models) -/
+
+theorem filterMap_range_length {β : Type} (g : ℕ → Option β) :
+    ∀ n : ℕ, (∀ j < n, (g j).isSome) → ((List.range n).filterMap g).length = n := by
+  intro n
+  induction n with
+  | zero => intro _; simp
+  | succ n ih =>
+    intro h
+    rw [List.range_succ, List.filterMap_append, List.length_append, ih (fun j hj => h j (by omega))]
+    obtain ⟨v, hv⟩ := Option.isSome_iff_exists.mp (h n (by omega))
+    simp [hv]
+
+theorem filterMap_range_getElem? {β : Type} (g : ℕ → Option β) :
+    ∀ n : ℕ, (∀ j < n, (g j).isSome) → ∀ i < n, ((List.range n).filterMap g)[i]? = g i := by
+  intro n
+  induction n with
+  | zero => intro _ i hi; omega
+  | succ n ih =>
+    intro h i hi
+    have hl := filterMap_range_length g n (fun j hj => h j (by omega))
+    obtain ⟨v, hv⟩ := Option.isSome_iff_exists.mp (h n (by omega))
+    rw [List.range_succ, List.filterMap_append]
+    by_cases hin : i < n
+    · rw [List.getElem?_append_left (by omega)]
+      exact ih (fun j hj => h j (by omega)) i hin
+    · have : i = n := by omega
+      subst this
+      rw [List.getElem?_append_right (by omega), hl]
+      simp [hv]
+
+theorem unitVec_modF (a d : ℝ) : unitVec (modF a twoPi) d = unitVec a d := by
+  simp [unitVec, cos_modF_twoPi, sin_modF_twoPi]
 
 end Coords
